@@ -190,6 +190,12 @@ func c01Gen(r *rand.Rand, tier string) any {
 					}
 				}
 			}
+			// ... or a generated file is deleted and the rebuild that re-creates it is interrupted
+			for _, t := range shadow.closure(label) {
+				if len(t.Generates) > 0 {
+					eds = append(eds, [2]opSpec{{Op: "delete-generated", Label: t.label(), N: r.IntN(2)}, {Op: "nop"}})
+				}
+			}
 			if len(eds) > 0 {
 				e := eds[r.IntN(len(eds))]
 				sc.Ops = append(sc.Ops, opSpec{Op: "build", Label: label}, e[0], opSpec{Op: "build", Label: label, CrashAt: 1 + r.IntN(700)}, e[1], opSpec{Op: "build", Label: label})
